@@ -553,6 +553,9 @@ class Exec(Interp):
             elif op == 'Mul':
                 cs = [a[1] * b[1], a[1] * b[2], a[2] * b[1], a[2] * b[2]]
                 lo, hi = min(cs), max(cs)
+            elif op == 'Div' and (b[1] > 0 or b[2] < 0):
+                cs = [a[1] / b[1], a[1] / b[2], a[2] / b[1], a[2] / b[2]]
+                lo, hi = min(cs), max(cs)
             if lo is not None:
                 slack = 1e-12 * max(1.0, abs(lo), abs(hi))
                 return ('float', lo - slack, hi + slack, False)
@@ -1465,6 +1468,14 @@ class Exec(Interp):
                 if self.prove_le(st, bufv[1], A[1][2]):
                     return [(st, self.mk_option(st, None, True))]
                 return [(st, self.mk_option(st, self.dest_payload_top(st, fr, t), True))]
+        if name in ('get_unchecked', 'get_unchecked_mut') and d.startswith('core::slice::') and len(A) == 2:
+            # unchecked access: the bound is an obligation of the caller (undefined behaviour otherwise)
+            bufv = dv(A[0])
+            if bufv[0] == 'buf' and A[1][0] == 'int' and self.prove_lt(st, A[1][2], bufv[1]):
+                self.discharge('unchecked-index')
+            elif A[1][0] == 'int':
+                self.oblige('unchecked-index', fr, '%s(index) requires index < len' % name, [self.describe(st, bufv), self.describe(st, A[1])], line, chain)
+            return [(st, self.dest_top(st, fr, t))]
         if name in ('rotate_left', 'rotate_right') and d.startswith('core::slice::') and len(A) == 2:
             bufv = dv(A[0])
             if bufv[0] == 'buf' and A[1][0] == 'int' and self.prove_le(st, A[1][2], bufv[1]):
